@@ -1324,7 +1324,7 @@ pub fn generate(seed: u64, tier: Tier) -> Case {
             }
             "api_odd_pointer_size" => {
                 // `pointer_size` is an argument of the public entry points.
-                world.pointer_size = *rng.pick(&[0usize, 1, 2, 3, 16, 1 << 20]);
+                world.pointer_size = *rng.pick(&[0usize, 1, 2, 3, 16, 1 << 20, 1 << 62, usize::MAX / 2 + 1, usize::MAX - 7, usize::MAX]);
                 true
             }
             "env_symlink_loop" => {
